@@ -3,6 +3,8 @@
 package main
 
 import (
+	"path/filepath"
+	"os"
 	"fmt"
 	"io"
 	"net/http"
@@ -66,6 +68,7 @@ type vUpSpec struct {
 	id, path, rewrite string
 	static            bool
 	noPassHost        bool
+	files             []string // a file:// upstream serving these names (content "FILE:<id>:<name>")
 }
 
 func driveC17(t *testing.T, out *vEmitter) {
@@ -76,10 +79,18 @@ func driveC17(t *testing.T, out *vEmitter) {
 			{id: "static", path: "/static-resp/", static: true}, {id: "q", path: "^/q/(.*)$", rewrite: "/qq/$1?added=1&x=y"}, {id: "art", path: "^/articles/([^/]*)$", rewrite: "/article?id=$1"}},
 		{{id: "a", path: "/a/"}, {id: "ab", path: "/ab/"}, {id: "a-b", path: "/a/b/"}, {id: "abc", path: "/a/b/c"}, {id: "nohost", path: "/nohost/", noPassHost: true}},
 		{{id: "apiv2", path: "/api/v2/"}, {id: "static-root", path: "/", static: true}, {id: "api", path: "/api/"}, {id: "rw", path: "^/api/v2/special", rewrite: "/s"}},
+		// patterns that tell the decoded path from its percent-encoded spelling, and file upstreams with and without a rewrite
+		{{id: "root", path: "/"}, {id: "prof", path: "^/users/([^/]+)/profile$", rewrite: "/p/$1"}, {id: "sp", path: "^/my docs/(.*)$", rewrite: "/d/$1"},
+			{id: "uni", path: "^/caf\u00e9/(.*)$", rewrite: "/c/$1"},
+			{id: "docs", path: "^/docs/(.*)$", rewrite: "/$1", files: []string{"plain.txt", "release notes.txt", "r\u00e9sum\u00e9.txt", "a+b.txt", "semi;colon.txt"}},
+			{id: "files", path: "/files/", files: []string{"plain.txt", "release notes.txt", "r\u00e9sum\u00e9.txt", "a+b.txt"}}},
 	}
 	paths := []string{"/", "/x", "/api", "/api/", "/api/users", "/api/v2", "/api/v2/", "/api/v2/items?q=1", "/api/v2/special/1", "/apix", "/exact", "/exact/", "/exact/x",
 		"/api/x%2Fy", "/api/v2/a%20b", "/api/%2e%2e/x", "/api/a+b", "/api/c;d=1", "/api/%C3%A9", "/api/é", "/legacy/one/two", "/legacy/", "/legacy/my%20file.txt", "/legacy/caf%C3%A9/x", "/legacy/a%2Fb", "/q/a%20b?orig=1", "/lx%20y", "/l", "/lx/y", "/q/z?orig=1&x=0",
 		"/articles/blog-2021", "/articles/a%20b", "/articles/a%3Bb", "/articles/a%26b%3Dc", "/articles/50%25", "/legacy/x?x=%2F&y=%3D;z&k=1", "/legacy/x?a=%zz&b=2", "/q/x?b=2&a=1&b=1",
+		"/users/ab/profile", "/users/a%2Fb/profile", "/users/a%2fb/profile?x=1", "/users/caf%C3%A9/profile", "/my%20docs/x%20y", "/my docs/z", "/caf%C3%A9/au%20lait", "/users//profile",
+		"/docs/plain.txt", "/docs/release%20notes.txt", "/docs/r%C3%A9sum%C3%A9.txt", "/docs/a+b.txt", "/docs/a%2Bb.txt", "/docs/semi%3Bcolon.txt", "/docs/missing.txt",
+		"/files/plain.txt", "/files/release%20notes.txt", "/files/r%C3%A9sum%C3%A9.txt", "/files/a+b.txt", "/files/nope.txt",
 		"/static-resp/x", "/a/", "/a/x", "/ab/x", "/a/b/x", "/a/b/c", "/a/b/c/", "/a/b/cd", "/nohost/x", "/a", "/ab", "/new/direct"}
 	queries := []string{"", "?q=1&r=a+b%20c", "?", "?x=%2F&y=%3D;z"}
 	for si, set := range sets {
@@ -95,7 +106,14 @@ func driveC17(t *testing.T, out *vEmitter) {
 			var ups []options.Upstream
 			for _, u := range set {
 				o := options.Upstream{ID: u.id, Path: u.path, RewriteTarget: u.rewrite}
-				if u.static {
+				if len(u.files) > 0 {
+					dir := filepath.Join(vTmp(), fmt.Sprintf("c17-files-%d-%s", si, u.id))
+					_ = os.MkdirAll(dir, 0o755)
+					for _, fn := range u.files {
+						_ = os.WriteFile(filepath.Join(dir, fn), []byte("FILE:"+u.id+":"+fn), 0o644)
+					}
+					o.URI = "file://" + dir
+				} else if u.static {
 					o.Static = true
 					code := 299
 					o.StaticCode = &code
@@ -161,6 +179,7 @@ func driveC17(t *testing.T, out *vEmitter) {
 						}
 					}
 					// ---- observed routing ----
+					fileNotFound := false
 					obs := vY("notfound")
 					switch {
 					case hit != nil:
@@ -174,6 +193,24 @@ func driveC17(t *testing.T, out *vEmitter) {
 							if u.Static {
 								obs = vL(vY("to"), vI(int64(i)))
 							}
+						}
+					case res.Status == 200 && strings.HasPrefix(res.Body, "FILE:"), res.Status == 404 && strings.Contains(res.Body, "404 page not found"):
+						// a file upstream answered (the file, or the file server's own not-found)
+						fileID := ""
+						if strings.HasPrefix(res.Body, "FILE:") {
+							fileID = strings.SplitN(res.Body, ":", 3)[1]
+						}
+						nFile := 0
+						for i, u := range sorted {
+							if strings.HasPrefix(u.URI, "file://") {
+								nFile++
+								if u.ID == fileID {
+									obs = vL(vY("to"), vI(int64(i)))
+								}
+							}
+						}
+						if fileID == "" && nFile > 0 {
+							fileNotFound = true // some file upstream answered "not found": which one is not observable
 						}
 					case res.Status == 301:
 						obs = vY("redirect_slash")
@@ -218,7 +255,7 @@ func driveC17(t *testing.T, out *vEmitter) {
 									map[string]interface{}{"target": target, "status": res.Status, "set": si})
 							}
 						}
-						if !cleanRedirect && !rewriteRefused {
+						if !cleanRedirect && !rewriteRefused && !fileNotFound {
 							out.Case("route", true, obs, vL("upstream_route", vL(listSX...), vL(mt...), vS(mpath), vS(req.URL.Path)))
 						}
 					}
@@ -303,7 +340,35 @@ func driveC17(t *testing.T, out *vEmitter) {
 							}
 						}
 					}
-					if (hit != nil || res.Status == 299) && gotID != want {
+					if strings.HasPrefix(res.Body, "FILE:") {
+						gotID = strings.SplitN(res.Body, ":", 3)[1]
+					}
+					// a file upstream serves the file its (rewritten) decoded path names, whatever the percent-encoded spelling
+					for _, u := range set {
+						if u.id != want || len(u.files) == 0 {
+							continue
+						}
+						rel := strings.TrimPrefix(req.URL.Path, u.path)
+						if u.rewrite != "" {
+							rel = strings.TrimPrefix(regexp.MustCompile(u.path).ReplaceAllString(req.URL.Path, u.rewrite), "/")
+						}
+						exists := false
+						for _, fn := range u.files {
+							if fn == rel {
+								exists = true
+							}
+						}
+						wantBody := "FILE:" + u.id + ":" + rel
+						if exists && (res.Status != 200 || res.Body != wantBody) {
+							out.Violation("upstream/file-not-served", "a file upstream did not serve the file the request path names",
+								map[string]interface{}{"target": target, "upstream": u.id, "file": rel, "status": res.Status, "raw_path": rawPath})
+						}
+						if !exists && res.Status == 200 && strings.HasPrefix(res.Body, "FILE:") {
+							out.Violation("upstream/file-not-served", "a file upstream served a file other than the one the request path names",
+								map[string]interface{}{"target": target, "upstream": u.id, "file": rel, "body": res.Body})
+						}
+					}
+					if (hit != nil || res.Status == 299 || strings.HasPrefix(res.Body, "FILE:")) && gotID != want {
 						out.Violation("upstream/wrong-upstream", "the request was delivered to an upstream other than the best match of the configured paths",
 							map[string]interface{}{"set": si, "raw_path": rawPath, "target": target, "got": gotID, "want": want})
 					}
